@@ -93,6 +93,7 @@ def scenario(shape):
             # only the uninterrupted run reaches this point with crashes == 0; it is the
             # reference run (checked in C01); nothing more to prove here
             pass
+        sim.world.durable.armed = False          # a second crash point beyond the run never fires
         chain.check_index(sim, 'resumed' if crashes else 'uninterrupted')
         if crashes and len(blocks) > 1:
             # the undo information is part of what was committed: the top block can still be backed out
